@@ -66,12 +66,14 @@ pub struct T {
     pub acc_out: bool,
     pub acc_err: bool,
     pub dur: Option<u64>,
+    /// `config.wait` in ms (time that passes before the command starts, after its limit was computed)
+    pub wait: u64,
 }
 impl T {
     fn field(&self) -> String {
         let o = |x: Option<i64>| x.map(|v| v.to_string()).unwrap_or("-".into());
         format!(
-            "{},{},{},{},{},{},{},{},{}",
+            "{},{},{},{},{},{},{},{},{}{}",
             o(self.expected.map(|v| v as i64)),
             self.stream,
             o(self.skip.map(|v| v as i64)),
@@ -80,7 +82,8 @@ impl T {
             self.status.show(),
             self.acc_out as u8,
             self.acc_err as u8,
-            o(self.dur.map(|v| v as i64))
+            o(self.dur.map(|v| v as i64)),
+            if self.wait > 0 { format!(",{}", self.wait) } else { String::new() }
         )
     }
     fn stream_cfg(&self) -> Option<OutputStreamControl> {
@@ -141,7 +144,7 @@ fn validate_case(prop: &str, idx: u64) -> CaseRec {
     let acc_out = take(2) == 1;
     let acc_err = take(2) == 1;
     let acc_empty = take(2) == 1;
-    let t = T { expected, stream, skip: None, timeout: None, acc_empty, status, acc_out, acc_err, dur: None };
+    let t = T { expected, stream, skip: None, timeout: None, acc_empty, status, acc_out, acc_err, dur: None, wait: 0 };
     let tc = t.testcase(&mk(), 1);
     let res = guarded(|| tc.validate(&t.output()));
     let mut fails = vec![];
@@ -343,6 +346,7 @@ fn gen_tests(rng: &mut Rng, len: usize, statuses: Option<&[St]>) -> Vec<T> {
                 acc_out: rng.chance(2, 3),
                 acc_err: rng.chance(1, 2),
                 dur: None,
+                wait: 0,
             }
         })
         .collect()
@@ -364,12 +368,17 @@ enum Beh {
     Sleep(u64), // sleeps that long (ms) and passes; used with a document limit
     /// the same, in a shell that ignores SIGTERM (`trap '' TERM`) or defers it (`trap : TERM`): "is aborted" must not depend on the command's cooperation
     SleepNoTerm(u64, bool),
+    /// `{wait: <w>ms}` then a sleep of `ms`: the wait is not charged to the test's own limit, but to the document's clock
+    WaitSleep(u64, u64),
     /// Cram only: the command leaves the shell (`exit N`): the one script ends here
     ExitShell(i32),
 }
 
 #[derive(Clone, Debug)]
 struct EDoc {
+    /// `Some(c)`: a MARKDOWN document with front-matter `defaults: {skip_document_code: c}` that is run with
+    /// `--cram-compat` (single-script execution, `cram` is true then)
+    compat_skip: Option<i32>,
     cram: bool,
     broken: bool,
     total: Option<u64>,
@@ -392,6 +401,11 @@ fn render_doc(d: &EDoc, di: usize, marker: &Path) -> (String, Vec<T>) {
             s.push_str(&format!("---\ntotal_timeout: {}ms\n---\n\n", t));
         }
     }
+    if let Some(c) = d.compat_skip {
+        s.push_str(&format!("---\ndefaults:\n  skip_document_code: {c}\n---\n\n"));
+    }
+    let doc_skip = d.compat_skip.unwrap_or(80);
+    let markdown_syntax = !d.cram || d.compat_skip.is_some();
     for (ti, (b, to)) in d.tests.iter().enumerate() {
         let id = format!("D{di}T{ti}");
         let mark = format!("echo {id} >> {}", marker.display());
@@ -400,14 +414,14 @@ fn render_doc(d: &EDoc, di: usize, marker: &Path) -> (String, Vec<T>) {
             cfg.push(format!("timeout: {}ms", t));
         }
         let (cmd, exp, code, model): (String, &str, Option<i32>, T) = {
-            let base = T { expected: None, stream: if d.cram { 'c' } else { 'o' }, skip: Some(80), timeout: *to, acc_empty: false, status: St::Code(0), acc_out: true, acc_err: true, dur: None };
+            let base = T { expected: None, stream: if d.cram && d.compat_skip.is_none() { 'c' } else { 'o' }, skip: Some(doc_skip), timeout: *to, acc_empty: false, status: St::Code(0), acc_out: true, acc_err: true, dur: None, wait: 0 };
             match b {
                 Beh::Pass => (format!("{mark}; echo ok"), "ok", None, base),
                 Beh::PassCode(c) => (format!("{mark}; echo ok; (exit {c})"), "ok", Some(*c), T { expected: Some(*c), status: St::Code(*c), ..base }),
                 Beh::BadOut => (format!("{mark}; echo bad"), "ok", None, T { acc_out: false, ..base }),
                 Beh::BadCode(c) => (format!("{mark}; echo ok; (exit {c})"), "ok", None, T { status: St::Code(*c), ..base }),
                 Beh::Skip(custom) => {
-                    let c = custom.unwrap_or(80);
+                    let c = custom.unwrap_or(doc_skip);
                     if let Some(c) = custom {
                         cfg.push(format!("skip_document_code: {c}"));
                     }
@@ -421,12 +435,16 @@ fn render_doc(d: &EDoc, di: usize, marker: &Path) -> (String, Vec<T>) {
                     ("sleep 0.01".to_string(), "", None, T { status: St::Detached, acc_empty: true, ..base })
                 }
                 Beh::Sleep(ms) => (format!("{mark}; sleep {}.{:03}; echo ok", ms / 1000, ms % 1000), "ok", None, T { dur: Some(*ms), ..base }),
+                Beh::WaitSleep(w, ms) => {
+                    cfg.push(format!("wait: {w}ms"));
+                    (format!("{mark}; sleep {}.{:03}; echo ok", ms / 1000, ms % 1000), "ok", None, T { dur: Some(*ms), wait: *w, ..base })
+                }
                 Beh::SleepNoTerm(ms, ignore) => (format!("{mark}; trap {} TERM; sleep {}.{:03}; echo ok", if *ignore { "''" } else { ":" }, ms / 1000, ms % 1000), "ok", None, T { dur: Some(*ms), ..base }),
                 // dur = Some(1) is the model's marker for "leaves the shell with this code"
                 Beh::ExitShell(c) => (format!("{mark}; echo ok; exit {c}"), "ok", Some(*c), T { expected: Some(*c), status: St::Code(*c), dur: Some(1), ..base }),
             }
         };
-        if d.cram {
+        if !markdown_syntax {
             s.push_str(&format!("{id}\n  $ {cmd}\n"));
             if !exp.is_empty() {
                 s.push_str(&format!("  {exp}\n"));
@@ -460,7 +478,7 @@ fn spec_outcomes(d: &EDoc) -> Option<Vec<(usize, &'static str)>> {
         return None;
     }
     let kinds = |b: &Beh| match b {
-        Beh::Pass | Beh::PassCode(_) | Beh::Sleep(_) | Beh::SleepNoTerm(..) => "success",
+        Beh::Pass | Beh::PassCode(_) | Beh::Sleep(_) | Beh::SleepNoTerm(..) | Beh::WaitSleep(..) => "success",
         Beh::BadOut => "malformed_output",
         Beh::BadCode(_) => "invalid_exit_code",
         Beh::Kill => "internal_error",
@@ -470,8 +488,10 @@ fn spec_outcomes(d: &EDoc) -> Option<Vec<(usize, &'static str)>> {
     if d.cram {
         // all run in one script, up to a command that leaves the shell
         let upto = d.tests.iter().position(|(b, _)| matches!(b, Beh::ExitShell(_))).unwrap_or(n);
-        if let Some((Beh::ExitShell(80), _)) = d.tests.get(upto) {
-            return Some((0..n).map(|i| (i, "skipped")).collect());
+        if let Some((Beh::ExitShell(x), _)) = d.tests.get(upto) {
+            if *x == d.compat_skip.unwrap_or(80) {
+                return Some((0..n).map(|i| (i, "skipped")).collect());
+            }
         }
         // a test case that ended with the skip code skips the document
         if d.tests[..upto].iter().any(|(b, _)| matches!(b, Beh::Skip(_))) {
@@ -537,7 +557,7 @@ fn e2e_case(prop: &str, docs: Vec<EDoc>, tmproot: &Path, idx: u64) -> CaseRec {
     let mut models = vec![];
     for (di, d) in docs.iter().enumerate() {
         let (text, ts) = render_doc(d, di, &marker);
-        let p = dir.join(format!("doc{di}.{}", if d.cram && !d.broken { "t" } else { "md" }));
+        let p = dir.join(format!("doc{di}.{}", if d.cram && !d.broken && d.compat_skip.is_none() { "t" } else { "md" }));
         std::fs::write(&p, text).unwrap();
         paths.push(p);
         models.push(ts);
@@ -546,6 +566,7 @@ fn e2e_case(prop: &str, docs: Vec<EDoc>, tmproot: &Path, idx: u64) -> CaseRec {
         .arg("test")
         .arg("-r")
         .arg("json")
+        .args(if docs.iter().any(|d| d.compat_skip.is_some()) { vec!["--cram-compat"] } else { vec![] })
         .args(&paths)
         .current_dir(&dir)
         .env("TMPDIR", dir.join("tmp"))
@@ -782,7 +803,7 @@ fn prepend_append_case(prop: &str, idx: u64, uid: u64, tmproot: &Path) -> CaseRe
     }
     let _ = std::fs::remove_dir_all(&dir);
     // model: one document whose test list is prepend ++ own ++ append
-    let ts: Vec<T> = expected_kinds.iter().map(|k| T { expected: None, stream: 'o', skip: Some(80), timeout: None, acc_empty: false, status: St::Code(0), acc_out: *k == "success", acc_err: true, dur: None }).collect();
+    let ts: Vec<T> = expected_kinds.iter().map(|k| T { expected: None, stream: 'o', skip: Some(80), timeout: None, acc_empty: false, status: St::Code(0), acc_out: *k == "success", acc_err: true, dur: None, wait: 0 }).collect();
     CaseRec {
         op: format!("rundocs {}", doc_field(false, None, &ts)),
         impl_out: format!("{} exit={}", got.iter().map(|(i, k)| format!("{i}:{k}")).collect::<Vec<_>>().join(","), code),
@@ -828,7 +849,7 @@ fn gen_edoc(rng: &mut Rng, allow_broken: bool) -> EDoc {
     }
     // PassCode(80) is a skip under the default skip code: express it as such
     let tests = tests.into_iter().map(|(b, t)| if matches!(b, Beh::PassCode(80)) { (Beh::Skip(None), t) } else { (b, t) }).collect();
-    EDoc { cram, broken, total: None, tests }
+    EDoc { compat_skip: None, cram, broken, total: None, tests }
 }
 
 /// time-based documents for C14: sleeps against per-test and document limits (generous margins)
@@ -836,19 +857,22 @@ fn timed_docs() -> Vec<EDoc> {
     let s = |ms: u64, to: Option<u64>| (Beh::Sleep(ms), to);
     vec![
         // per-test limit longer than the document limit: the document limit must win
-        EDoc { cram: false, broken: false, total: Some(700), tests: vec![s(2500, Some(20_000)), s(10, None)] },
+        EDoc { compat_skip: None, cram: false, broken: false, total: Some(700), tests: vec![s(2500, Some(20_000)), s(10, None)] },
         // per-test limit shorter than the document limit
-        EDoc { cram: false, broken: false, total: Some(20_000), tests: vec![s(10, None), s(2500, Some(400)), s(10, None)] },
+        EDoc { compat_skip: None, cram: false, broken: false, total: Some(20_000), tests: vec![s(10, None), s(2500, Some(400)), s(10, None)] },
         // cumulative: two sleeps of 0.6 s against a document limit of 1 s
-        EDoc { cram: false, broken: false, total: Some(1000), tests: vec![s(600, None), s(900, None), s(10, None)] },
+        EDoc { compat_skip: None, cram: false, broken: false, total: Some(1000), tests: vec![s(600, None), s(900, None), s(10, None)] },
         // everything inside all limits
-        EDoc { cram: false, broken: false, total: Some(20_000), tests: vec![s(100, Some(5_000)), s(100, None)] },
+        EDoc { compat_skip: None, cram: false, broken: false, total: Some(20_000), tests: vec![s(100, Some(5_000)), s(100, None)] },
         // unlimited document, per-test limit hit in last position
-        EDoc { cram: false, broken: false, total: Some(0), tests: vec![s(10, None), s(2500, Some(300))] },
+        EDoc { compat_skip: None, cram: false, broken: false, total: Some(0), tests: vec![s(10, None), s(2500, Some(300))] },
         // the overrunning command ignores / defers SIGTERM: it must be aborted at the limit all the same
         // (6 s of sleep against a limit of 0.4 s: the bound of limit + margin is far below the sleep)
-        EDoc { cram: false, broken: false, total: Some(20_000), tests: vec![s(10, None), (Beh::SleepNoTerm(6000, true), Some(400)), s(10, None)] },
-        EDoc { cram: false, broken: false, total: Some(500), tests: vec![(Beh::SleepNoTerm(6000, false), None), s(10, None)] },
+        EDoc { compat_skip: None, cram: false, broken: false, total: Some(20_000), tests: vec![s(10, None), (Beh::SleepNoTerm(6000, true), Some(400)), s(10, None)] },
+        EDoc { compat_skip: None, cram: false, broken: false, total: Some(500), tests: vec![(Beh::SleepNoTerm(6000, false), None), s(10, None)] },
+        // the document limit runs out BETWEEN two test cases (the wait of the second one is not charged to its own limit):
+        // the third one is due with nothing left and must be reported as timed out, the run fails
+        EDoc { compat_skip: None, cram: false, broken: false, total: Some(1000), tests: vec![s(10, None), (Beh::WaitSleep(1600, 10), None), s(10, None), s(10, None)] },
     ]
 }
 
@@ -862,13 +886,16 @@ fn timed_spec(d: &EDoc) -> Vec<(usize, &'static str)> {
         Some(t) => Some(t),
     };
     for (i, (b, to)) in d.tests.iter().enumerate() {
-        let dur = match b { Beh::Sleep(ms) | Beh::SleepNoTerm(ms, _) => *ms, _ => 0 };
+        let dur = match b { Beh::Sleep(ms) | Beh::SleepNoTerm(ms, _) | Beh::WaitSleep(_, ms) => *ms, _ => 0 };
+        let wait = if let Beh::WaitSleep(w, _) = b { *w } else { 0 };
         let rem = total.map(|t| t.saturating_sub(now));
         let lim = match (to, rem) {
             (Some(p), Some(r)) => Some((*p).min(r)),
             (Some(p), None) => Some(*p),
             (None, r) => r,
         };
+        // the wait passes after the limit was computed
+        now += wait;
         if lim.map_or(false, |l| l <= dur) {
             out.push((i, "timeout"));
             for j in i + 1..d.tests.len() {
@@ -911,16 +938,21 @@ fn timed_case(prop: &str, d: EDoc, tmproot: &Path, idx: u64) -> CaseRec {
     let wantv: Vec<(usize, String)> = want.iter().map(|(i, k)| (*i, k.to_string())).collect();
     if got != wantv {
         fails.push(("C14:timed-e2e".into(), format!("total={:?} tests={:?}: reported {:?}, expected {:?}", d.total, d.tests, got, wantv)));
+        fails.push(("C20:results-e2e".into(), format!("total={:?} tests={:?}: reported {:?}, expected {:?}", d.total, d.tests, got, wantv)));
     }
     let want_exit = if want.iter().any(|(_, k)| *k == "timeout") { 50 } else { 0 };
     if code != want_exit {
         fails.push(("C14:timed-exit".into(), format!("exit status {code}, expected {want_exit}")));
+        fails.push(("C20:exit-status".into(), format!("timed document total={:?} tests={:?}: exit status {code}, expected {want_exit}", d.total, d.tests)));
     }
     // upper bound on wall time: the sum of what may run plus a generous margin
     let bound: u64 = {
         let mut now = 0u64;
         for (i, (b, _)) in d.tests.iter().enumerate() {
-            let dur = match b { Beh::Sleep(ms) | Beh::SleepNoTerm(ms, _) => *ms, _ => 0 };
+            let dur = match b { Beh::Sleep(ms) | Beh::SleepNoTerm(ms, _) | Beh::WaitSleep(_, ms) => *ms, _ => 0 };
+            if let Beh::WaitSleep(w, _) = b {
+                now += *w;
+            }
             if want.get(i).map(|w| w.1) == Some("timeout") {
                 let total = match d.total { None => 900_000, Some(0) => u64::MAX, Some(t) => t };
                 let lim = d.tests[i].1.unwrap_or(u64::MAX).min(total.saturating_sub(now));
@@ -992,7 +1024,7 @@ pub fn run(ctx: &Ctx, prop: &str) {
         let b = behs[(idx % nb) as usize].clone();
         let to = |x: &Beh| if matches!(x, Beh::Timeout) { Some(300) } else { None };
         let tests = vec![(a.clone(), to(&a)), (Beh::Pass, None), (b.clone(), to(&b)), (Beh::Pass, None)];
-        Some(e2e_case(prop, vec![EDoc { cram: false, broken: false, total: None, tests }], &tr, 10_000 + idx))
+        Some(e2e_case(prop, vec![EDoc { compat_skip: None, cram: false, broken: false, total: None, tests }], &tr, 10_000 + idx))
     });
     // 3b'. a detached test case first, then every ordered pair, then a test case that times out: the results of the
     // timeout path must belong to the right test cases (outputs and test cases stay aligned around detached ones)
@@ -1002,7 +1034,7 @@ pub fn run(ctx: &Ctx, prop: &str) {
         let b = behs[(idx % nb) as usize].clone();
         let to = |x: &Beh| if matches!(x, Beh::Timeout) { Some(300) } else { None };
         let tests = vec![(Beh::Detached, None), (a.clone(), to(&a)), (b.clone(), to(&b)), (Beh::Timeout, Some(300)), (Beh::Pass, None)];
-        Some(e2e_case(prop, vec![EDoc { cram: false, broken: false, total: None, tests }], &tr, 30_000 + idx))
+        Some(e2e_case(prop, vec![EDoc { compat_skip: None, cram: false, broken: false, total: None, tests }], &tr, 30_000 + idx))
     });
     let cbehs = [Beh::Pass, Beh::PassCode(2), Beh::BadOut, Beh::BadCode(3), Beh::Skip(None), Beh::ExitShell(3), Beh::ExitShell(80), Beh::ExitShell(0)];
     let tr = tmproot.clone();
@@ -1011,7 +1043,20 @@ pub fn run(ctx: &Ctx, prop: &str) {
         let a = cbehs[(idx / ncb) as usize].clone();
         let b = cbehs[(idx % ncb) as usize].clone();
         let tests = vec![(a, None), (Beh::Pass, None), (b, None), (Beh::Pass, None)];
-        Some(e2e_case(prop, vec![EDoc { cram: true, broken: false, total: None, tests }], &tr, 20_000 + idx))
+        Some(e2e_case(prop, vec![EDoc { compat_skip: None, cram: true, broken: false, total: None, tests }], &tr, 20_000 + idx))
+    });
+    // 3b''. Markdown documents run with --cram-compat and a document-wide custom skip code: [a, pass, b, pass]
+    let tr = tmproot.clone();
+    let kbehs = [Beh::Pass, Beh::BadOut, Beh::BadCode(3), Beh::Skip(None), Beh::ExitShell(3), Beh::ExitShell(80), Beh::ExitShell(42), Beh::PassCode(80)];
+    let nk = kbehs.len() as u64;
+    ctx.run_stream("e2e-compat-custom-skip-pairs-exhaustive", nk * nk * 2, true, |idx| {
+        let code = if idx % 2 == 0 { 42 } else { 80 };
+        let a = kbehs[((idx / 2) / nk) as usize].clone();
+        let b = kbehs[((idx / 2) % nk) as usize].clone();
+        // PassCode(80) under the default code is a skip: express it as such
+        let fix = |x: Beh| if code == 80 && matches!(x, Beh::PassCode(80)) { Beh::Skip(None) } else { x };
+        let tests = vec![(fix(a), None), (Beh::Pass, None), (fix(b), None), (Beh::Pass, None)];
+        Some(e2e_case(prop, vec![EDoc { compat_skip: Some(code), cram: true, broken: false, total: None, tests }], &tr, 40_000 + idx))
     });
     // 3c. prepend / append from front-matter and command line (C20; thorough for the others)
     if prop == "C20" || ctx.thorough {
@@ -1025,7 +1070,7 @@ pub fn run(ctx: &Ctx, prop: &str) {
         });
     }
     // 4. wall-clock documents (C14; a short list, each a few seconds at most)
-    if prop == "C14" || ctx.thorough {
+    if prop == "C14" || prop == "C20" || ctx.thorough {
         let docs = timed_docs();
         let tr = tmproot.clone();
         ctx.run_stream("e2e-timed", docs.len() as u64, false, |idx| Some(timed_case(prop, docs[idx as usize].clone(), &tr, idx)));
@@ -1058,7 +1103,7 @@ pub fn replay(prop: &str, op: &str) -> bool {
                             "u" => St::Unknown,
                             c => St::Code(c[1..].parse().unwrap_or(0)),
                         };
-                        T { expected: x[0].parse().ok(), stream: x[1].chars().next().unwrap(), skip: x[2].parse().ok(), timeout: x[3].parse().ok(), acc_empty: x[4] == "1", status: st, acc_out: x[6] == "1", acc_err: x[7] == "1", dur: None }
+                        T { expected: x[0].parse().ok(), stream: x[1].chars().next().unwrap(), skip: x[2].parse().ok(), timeout: x[3].parse().ok(), acc_empty: x[4] == "1", status: st, acc_out: x[6] == "1", acc_err: x[7] == "1", dur: None, wait: 0 }
                     })
                     .collect();
                 let c = exec_case(prop, total, tests, &tmp);
